@@ -310,7 +310,8 @@ ReadChecks(m, e) ==
             ELSE IF p.k = "fdt" THEN PacketChecksFdt(m, m1, p, e.t)
             ELSE << <<"C06", "sender-emitted-undecodable-packet", FALSE, p>> >>)
       \o ProjChecks(m2, e.st)
-      \o << <<"C12", "reads-at-one-instant-do-not-terminate", m2.sameT <= ReadBudget(m), <<e.t, m2.sameT>> >>,
+      \o << \* (reported once, at the first read beyond the budget)
+             <<"C12", "reads-at-one-instant-do-not-terminate", m2.sameT # ReadBudget(m) + 1, <<e.t, m2.sameT>> >>,
              <<"C10", "newest-instance-expired-although-polled",
                  \* judged when the previous poll was at most one second ago
                  IF m.lastRead >= 0 /\ (e.t - m.lastRead) <= TicksPerSec(m) /\ m2.newestExp >= 0
